@@ -75,6 +75,7 @@ class SimParamSource:
             "raise": (self.plan.get("runner_raise") or {}).get(str(seq)),
             "throughput": _cyc(self.plan.get("throughput"), seq, None),
             "completes_after": self.plan.get("completes_after"),
+            "nest": bool(self.plan.get("nest")),
         }
         return p
 
@@ -91,6 +92,7 @@ class SimRunner:
     clock = None
     raised = []
     soft_failed = []  # requests for which the runner *returned* a failure (success: False) instead of raising
+    nested_obs = []  # (path, wire index or None for the enclosing context, request_start, request_end) seen by the runner itself
 
     async def __aenter__(self):
         return self
@@ -108,8 +110,17 @@ class SimRunner:
             if req["raise"] == "key":
                 raise KeyError("missing-param")
             raise RuntimeError("simulated runner failure")
-        for i in range(req["nwire"]):
-            await es.perform_request(method="GET", path=f"{path}/{i}")
+        if req.get("nest"):
+            # what a plug-in runner may do: its own request context around everything, one more around each wire request
+            with es.new_request_context() as mid:
+                for i in range(req["nwire"]):
+                    with es.new_request_context() as inner:
+                        await es.perform_request(method="GET", path=f"{path}/{i}")
+                        SimRunner.nested_obs.append((path, i, inner.request_start, inner.request_end))
+                SimRunner.nested_obs.append((path, None, mid.request_start, mid.request_end))
+        else:
+            for i in range(req["nwire"]):
+                await es.perform_request(method="GET", path=f"{path}/{i}")
         if req["cpu_post"]:
             SimRunner.clock.advance(req["cpu_post"])
         if req["ret"] == "tuple":
